@@ -86,7 +86,11 @@ func (g *Gen) newDataId() string {
 }
 
 func (g *Gen) seedStr() string {
-	switch g.R.Intn(10) {
+	k := 99
+	if g.Profile == "seedpoor" {
+		k = g.R.Intn(6)
+	}
+	switch k {
 	case 0:
 		return "0"
 	case 1:
@@ -129,7 +133,7 @@ func (g *Gen) advance() Op {
 	ns := g.nextScheduled()
 	switch {
 	case ns != 0 && ns < 1<<40 && g.R.Chance(45):
-		to = ns + int64(g.R.Intn(3)) - 1
+		to = ns - int64(g.R.Intn(2))
 		if to <= h {
 			to = ns
 		}
@@ -140,6 +144,11 @@ func (g *Gen) advance() Op {
 	}
 	if to <= h {
 		to = h + 1
+	}
+	// never jump over a scheduled height: every height of a real chain runs its end-blocker, and
+	// only blocks with nothing scheduled are no-ops for the modelled state (lemma idleBlock_noop)
+	if ns != 0 && to > ns {
+		to = ns
 	}
 	return Op{K: "advance", To: to, Seed: g.seedStr()}
 }
